@@ -30,23 +30,26 @@ def pyClass : GClass → String
   | .Swap => "Swap" | .CX => "CX" | .CZ => "CZ" | .CP => "CP" | .CCX => "CCX"
   | .MCX _ => "MCX" | .MCtrl _ _ => "MCtrl" | .Barrier => "Barrier" | .Nop => "NopGate"
 
-/-- the class itself followed by its base classes, from the generated table -/
-def ancestors (c : GClass) : List String :=
-  match Gen.gateAncestors.find? (fun p => p.1 == pyClass c) with
+/-- the class named `cname` followed by its base classes, from the generated table -/
+def ancestorsOf (cname : String) : List String :=
+  match Gen.gateAncestors.find? (fun p => p.1 == cname) with
   | some p => p.2
-  | none => [pyClass c]
+  | none => [cname]
 
-/-- `isinstance(g, gates.<name>)` -/
-def isInstance (c : GClass) (name : String) : Bool := (ancestors c).contains name
+/-- `isinstance(g, gates.<name>)` for an object of the class named `cname` -/
+def isInstanceName (cname name : String) : Bool := (ancestorsOf cname).contains name
+
+/-- `any(isinstance(g, zb_g) for zb_g in ZB_GATES)` for an object of the class named `cname` -/
+def zbClassName (cname : String) : Bool := Gen.zbGates.any (fun z => isInstanceName cname z)
 
 /-- `any(isinstance(g, zb_g) for zb_g in ZB_GATES)`; the repaired code (`mctrlXSplits` off)
 also accepts `MCtrl` objects whose inner gate is an `X` -/
 def isZB (q : Quirks) (c : GClass) : Bool :=
-  Gen.zbGates.any (isInstance c) ||
+  zbClassName (pyClass c) ||
     (!q.mctrlXSplits && match c with | .MCtrl g _ => g == "X" | _ => false)
 
 /-- `issubclass(g.__class__, gates.NopGate)` -/
-def isNopClass (c : GClass) : Bool := isInstance c "NopGate"
+def isNopClass (c : GClass) : Bool := isInstanceName (pyClass c) "NopGate"
 
 /-! ## `__exps_of_section` -/
 
